@@ -434,7 +434,7 @@ pub fn run(tier: Tier, seed: u64) -> i32 {
     let q = tier == Tier::Quick;
     let p0 = Params { max_dev: 0, seeds: vec![seed], time_limit: Duration::from_secs(if q { 25 } else { 600 }), ..Default::default() };
     rep.add("drop orders (permutations) at d=0", explore("C07", orders(tier), p0, &known));
-    let p = Params { max_dev: if q { 1 } else { 2 }, seeds: vec![seed, seed + 1], time_limit: Duration::from_secs(if q { 20 } else { 600 }), ..Default::default() };
+    let p = Params { max_dev: 2, seeds: vec![seed, seed + 1], time_limit: Duration::from_secs(if q { 20 } else { 600 }), ..Default::default() };
     rep.add("selected drop orders and open/close cycles under schedule exploration", explore("C07", core(tier), p, &known));
     rep.rule = "a case = (ports, pending/held requests, permutation of the drop operations over both endpoints, gap mode, max_ports/connect_queue, earlier cycles, schedule deviations); distinct = distinct (ending, dispatcher results, free port counts, reuse count); non-trivial = data was transferred on the ports before the shutdown".into();
     rep.assumptions = vec![
